@@ -8,7 +8,7 @@ import random
 from .. import core, gen_prog, refval
 from ..monitors import FrozenDict, FrozenList, ModelMutated, WatchedOptions, freeze
 from ..refast import pp
-from ..refeval import RefRuntimeError
+from ..refeval import Domain, RefRuntimeError, Unspecified
 from ..refvm import RefVM
 
 
@@ -105,6 +105,8 @@ def run_ref(model, init, limit, lib, **kw):
     vm = RefVM(g, lib, limit=limit, **kw)
     try:
         r = ('ok', refval.canon(vm.run(model)))
+    except (Domain, Unspecified):
+        return None  # the reference leaves the result open (arithmetic domain error, single-statement resource exhaustion)
     except RefRuntimeError as exc:
         r = ('err', str(exc))
     return r, vm.logs, user(g, lib), vm.clock
@@ -113,8 +115,11 @@ def run_ref(model, init, limit, lib, **kw):
 def check_model(frozen, plain, init, limit, acc, api, case_fn):
     bare_script, lib, rt_err = api
     before = json.dumps(plain, sort_keys=True)
+    b = run_ref(plain, init, limit, lib)  # reference first: it is bounded, and cases it leaves open are not run at all
+    if b is None:
+        acc.count('skipped_unspecified_by_reference')
+        return True
     a = run_real(frozen, init, limit, api)
-    b = run_ref(plain, init, limit, lib)
     a2 = run_real(plain, init, limit, api, watched=False)
     if a[0][0] == 'mutated':
         acc.violation('model-mutated', a[0][1], case_fn())
@@ -124,7 +129,7 @@ def check_model(frozen, plain, init, limit, acc, api, case_fn):
         return False
     if a != b:
         b14 = run_ref(plain, init, limit, lib, bool_num=True)
-        if a == b14:
+        if b14 is None or a == b14:
             acc.known_finding('F14', json.dumps(plain)[:200])
             return True
         which = [n for n, x, y in zip(('result', 'logs', 'globals', 'statement-count'), a, b) if x != y]
